@@ -267,6 +267,35 @@ def run(chk: Check):
                         chk.fail(f"inverse-variance MSM at sim == real returns {z!r} (0 * inf): not a non-negative number", case, signature=SIG_NAN)
             chk.case(["builtin", name, e, n, d, f2h(v1)], True, {"loss": name, "E": e, "N": n, "D": d, "value": v1})
             chk.count("builtin:" + name)
+    # the symmetries on LARGE inputs (odd ensemble sizes, long series): whatever an implementation does to bound its working memory
+    # (blocks, chunks, streaming), reordering ensemble members or coordinates does not change the value
+    big_shapes = [(3, 1200, 1), (5, 700, 2)] if chk.tier == "quick" else [(3, 1200, 1), (5, 700, 2), (3, 2000, 1), (7, 500, 3), (5, 1500, 1)]
+    for (e, n, d) in big_shapes:
+        prng = np.random.default_rng(rng.randrange(10 ** 9))
+        sim = prng.standard_normal((e, n, d)) * (1.0 + 0.3 * np.arange(e))[:, None, None] + 0.2 * np.arange(e)[:, None, None]      # members differ visibly
+        real = prng.standard_normal((n, d))
+        for name, mk0 in makers.items():
+            if "alias_filters" in name or name.startswith("gsl"):
+                continue
+            _CUR["d"] = d
+            case = {"case": {"kind": "builtin_large", "loss": name, "E": e, "N": n, "D": d}}
+            with warnings.catch_warnings(), np.errstate(all="ignore"):
+                warnings.simplefilter("ignore")
+                v1 = float(mk0().compute_loss(sim, real))
+                perm = list(range(e)); perm = perm[1:] + perm[:1]
+                if rng.random() < 0.5:
+                    perm = [perm[-1]] + perm[:-1][::-1]
+                vp = float(mk0().compute_loss(sim[perm], real))
+                vq = v1
+                if d >= 2:
+                    cp = list(range(d))[::-1]
+                    vq = float(mk0().compute_loss(sim[:, :, cp], real[:, cp]))
+            chk.case(["builtin-large", name, e, n, d], True, {"loss": name, "E": e, "N": n, "D": d, "value": v1})
+            chk.count("builtin_large:" + name)
+            if not (vp == v1 or abs(vp - v1) <= 1e-9 * max(1.0, abs(v1)) or (vp != vp and v1 != v1)):
+                chk.fail(f"{name} on large data (E={e}, N={n}, D={d}): reordering ensemble members {perm} changed the loss: {v1!r} -> {vp!r}", case)
+            if not (vq == v1 or abs(vq - v1) <= 1e-9 * max(1.0, abs(v1)) or (vq != vq and v1 != v1)):
+                chk.fail(f"{name} on large data (E={e}, N={n}, D={d}): reversing the coordinates changed the loss: {v1!r} -> {vq!r}", case)
     # wrong-length lists on the built-ins
     for name, mk in makers.items():
         for which in ("coordinate_weights", "coordinate_filters"):
